@@ -180,14 +180,60 @@ def solve_one(job):
             'z3_time': tz, 'model': model, 'reason': reason, 'cvc5': cv, 'expect': expect}
 
 
+def _child(job, conn):
+    try:
+        conn.send(solve_one(job))
+    except Exception as e:      # pragma: no cover
+        conn.send({'name': job[0], 'result': 'unknown', 'backend': 'z3', 'time': 0.0, 'z3_time': 0.0,
+                   'model': None, 'reason': 'worker error: %s' % e, 'cvc5': None, 'expect': job[2]})
+    finally:
+        conn.close()
+
+
 def solve_all(vcs, procs=None, use_cvc5=True, both=False, want_model=True):
+    """one OS process per query (hard wall-clock limit: z3's own timeout is not always honoured
+    inside quantifier instantiation / model construction), at most `procs` at a time"""
     jobs = []
     for vc in vcs:
         jobs.append((vc.name, vc_to_smt2(vc), vc.expect, want_model and vc.expect == 'unsat',
                      use_cvc5, both))
-    procs = procs or min(16, max(1, len(jobs)))
-    if len(jobs) <= 1 or procs == 1:
-        return [solve_one(j) for j in jobs]
+    procs = procs or int(os.environ.get('PYVC_PROCS', '16'))
+    hard = Z3_TIMEOUT_MS / 1000.0 + CVC5_TIMEOUT_S + 15
     ctx = multiprocessing.get_context('fork')
-    with ctx.Pool(procs) as pool:
-        return pool.map(solve_one, jobs, chunksize=1)
+    results = [None] * len(jobs)
+    running = {}
+    nxt = 0
+    while nxt < len(jobs) or running:
+        while nxt < len(jobs) and len(running) < procs:
+            pr, pw = ctx.Pipe(duplex=False)
+            p = ctx.Process(target=_child, args=(jobs[nxt], pw))
+            p.daemon = True
+            p.start()
+            pw.close()
+            running[nxt] = (p, pr, time.time())
+            nxt += 1
+        done = []
+        for i, (p, pr, t0) in running.items():
+            if pr.poll(0):
+                try:
+                    results[i] = pr.recv()
+                except EOFError:
+                    results[i] = None
+                p.join(1)
+                done.append(i)
+            elif not p.is_alive():
+                done.append(i)
+            elif time.time() - t0 > hard:
+                p.kill()
+                p.join(1)
+                done.append(i)
+        for i in done:
+            p, pr, t0 = running.pop(i)
+            if results[i] is None:
+                results[i] = {'name': jobs[i][0], 'result': 'unknown', 'backend': 'z3', 'time': time.time() - t0,
+                              'z3_time': time.time() - t0, 'model': None,
+                              'reason': 'hard wall-clock limit', 'cvc5': None, 'expect': jobs[i][2]}
+            pr.close()
+        if not done:
+            time.sleep(0.01)
+    return results
